@@ -944,6 +944,10 @@ func (fc *functionCollector) collectFromNode(node ast.Node) {
 		}
 	case *ast.UpdateExpression:
 		fc.collectFromExpression(n.Value)
+	case *ast.FunctionCall:
+		// A function call reached only through Children() (JOIN ... ON f(x),
+		// MERGE conditions, ...): record it like one found in a known position
+		fc.collectFromExpression(n)
 	case *ast.WithClause:
 		for _, cte := range n.CTEs {
 			fc.collectFromNode(cte)
